@@ -208,7 +208,9 @@ def run_case(ctx, case):
         edges = [edges[i] for i in xr_.permutation(len(edges))]
         extra = {"edge_node_connectivity": np.array([sorted(e) if xr_.random() < 0.5 else sorted(e)[::-1] for e in edges], dtype=np.intp)}
         ctx.observe("meshes_with_supplied_edge_nodes")
-    g = ux.grid_from_mesh(m, width=width, layout=layout, extra=extra)
+    conv = ux.CONVENTIONS[case.get("xseed", 0) % len(ux.CONVENTIONS)]
+    g = ux.grid_from_mesh(m, width=width, layout=layout, extra=extra, convention=conv)
+    ctx.observe("convention_fill_%s_start_%d" % ("standard" if conv[0] == ux.INT_FILL else conv[0], conv[1]))
     mixed = len({len(f) for f in m.faces}) > 1
     check_grid(ctx, g, m.faces, m.n_node, width, m.closed, case["order"],
                {"kind": "mesh", "family": case["mesh"]["family"], "mixed": mixed, "closed": bool(m.closed), "extra_width": case["extra_width"] > 0, "layout": layout,
